@@ -42,11 +42,6 @@ pub struct Compiler {
     /// Used to determine if we should emit DeclareVarHoisted or SetVar
     hoisted_vars: FxHashSet<JsString>,
 
-    /// Loop variable redirects: when compiling for-loop updates, assignments to
-    /// these variables should write to the register instead of the environment.
-    /// This ensures closures capture pre-update values.
-    loop_var_redirects: FxHashMap<JsString, Register>,
-
     /// Stack of class contexts for private field access
     /// Each class being compiled pushes its brand ID so inner code can access private fields
     class_context_stack: Vec<ClassContext>,
@@ -121,7 +116,6 @@ impl Compiler {
             try_depth: 0,
             scope_depth: 0,
             hoisted_vars: FxHashSet::default(),
-            loop_var_redirects: FxHashMap::default(),
             class_context_stack: Vec::new(),
             next_class_brand: 0,
             track_completion: false,
@@ -389,23 +383,6 @@ impl Compiler {
             self.builder.patch_jump(*jump);
         }
         Ok(())
-    }
-
-    /// Set loop variable redirects for for-loop update expressions.
-    /// When these are set, assignments to the specified variables will write
-    /// to registers instead of the environment, preserving closure semantics.
-    fn set_loop_var_redirects(&mut self, redirects: Vec<(JsString, Register)>) {
-        self.loop_var_redirects = redirects.into_iter().collect();
-    }
-
-    /// Clear loop variable redirects
-    fn clear_loop_var_redirects(&mut self) {
-        self.loop_var_redirects.clear();
-    }
-
-    /// Check if a variable has a loop redirect, returning the register if so
-    fn get_loop_var_redirect(&self, name: &JsString) -> Option<Register> {
-        self.loop_var_redirects.get(name).copied()
     }
 
     /// Add a break jump for the specified label (or innermost loop if None)
